@@ -513,7 +513,7 @@ def run_built(args, seed, bins, missing_hooks, ovjson, pcfg, t0):
         return 2
 
     # ---- evidence
-    level = per_scen[0][0]["Level"] or "exploration"
+    level = pcfg.get("level") or per_scen[0][0]["Level"] or "exploration"  # the level claimed in MANIFEST (driver/props.py)
     tot = lambda f: sum(a[f] for _, a in per_scen)
     evaluations = tot("executions")
     nontriv = sum((a["nontrivial"] if a["nontrivial"] else a["outcomes"]) for _, a in per_scen)
